@@ -26,6 +26,8 @@ CFGS = {
     't':   ('MC_TxPool_t.cfg',   {'accts': [1], 'universe': UT, 'P': 1, 'W': 1}),
     'g':   ('MC_TxPool_g.cfg',   {'accts': [1], 'universe': UG, 'P': 2, 'W': 2}),
     'q':   ('MC_TxPool_q.cfg',   {'accts': [1, 2], 'universe': UQ + ADM_G, 'P': 2, 'W': 2}),
+    'qs':  ('MC_TxPool_qs.cfg',  {'accts': [1, 2], 'universe': UQ + ADM_G, 'P': 2, 'W': 2}),
+    'gs':  ('MC_TxPool_gs.cfg',  {'accts': [1], 'universe': UG, 'P': 2, 'W': 2}),
     'l':   ('MC_TxPool_l.cfg',   {'accts': [1, 2], 'universe': UL + ADM_L, 'P': 3, 'W': 3}),
     'e':   ('MC_TxPool_e.cfg',   {'accts': [1, 2], 'universe': UL + ADM_L, 'P': 3, 'W': 3, 'evict': True}),
     'pre': ('MC_TxPool_pre.cfg', {'accts': [1], 'universe': UG, 'P': 2, 'W': 2}),
@@ -136,7 +138,7 @@ def run(ctx, replay=None):
     ctx.cov['spec_sensitivity'] = wit
 
     # 4. simulated behaviours of the large universe (two accounts, admin ops, limits 3/3); with eviction ticks
-    sims = [('l', 80, 40), ('q', 40, 30), ('e', 24, 30)] if quick else [('l', 700, 50), ('q', 300, 40), ('g', 150, 30), ('e', 120, 36)]
+    sims = [('l', 80, 40), ('qs', 40, 30), ('e', 24, 30)] if quick else [('l', 700, 50), ('qs', 300, 40), ('gs', 150, 30), ('e', 120, 36)]
     for name, num, depth in sims:
         cfgfile, tcfg = CFGS[name]
         r, ts = tlc.simulate_traces(SPEC, MODULE, cfgfile, num, depth, ctx.seed, drop_vars=DROP, timeout=900)
@@ -162,6 +164,9 @@ def run(ctx, replay=None):
     traces.append(hand('failing-tx-stays', cfg2, [('Submit', [[1, 0, 2], 'ok']), ('Submit', [[1, 1, 1], 'ok']), ('Reap', [100]),
                                                   ('Update', [[[1, 0, 2]]]), ('SwapState', []), ('UpdateToState', [[1, 2], [1, 2]]),
                                                   ('Reap', [100]), ('Submit', [[1, 0, 1], 'ok']), ('Reap', [100])]))
+
+    traces.append(hand('tryreplace-evicts', cfg2, [('Submit', [[1, 1, 1], 'ok']), ('Submit', [[1, 2, 1], 'ok']), ('Submit', [[1, 3, 1], 'ok']),
+                                                   ('Submit', [[1, 0, 1], 'ok']), ('Submit', [[1, 3, 1], 'ok']), ('Reap', [100])]))
 
     # binding self-test
     probe = None
